@@ -1380,7 +1380,16 @@ func (g *gen) loopBack(li *loopInfo, from *ssa.BasicBlock) {
 	if li.spec != nil {
 		for _, bc := range li.spec.Body {
 			env := g.specEnvHere()
-			g.bindLoopVars(env, li, func(p *ssa.Phi) Val { return g.vals[p] })
+			// loop-carried variables: x is the value after this iteration, x$old the value at its start; $i is the index of the element processed
+			g.bindLoopVars(env, li, func(p *ssa.Phi) Val { return g.val(p.Edges[idx]) })
+			for _, p := range li.phis {
+				if p.Comment == "rangeindex" {
+					hv := g.vals[p]
+					env.vars["$i"] = Val{T: app("+", hv.T, "1"), Sort: "Int", Typ: p.Type()}
+				} else if p.Comment != "" {
+					env.vars[p.Comment+"$old"] = g.vals[p]
+				}
+			}
 			env.old = li.headState
 			t, err := g.evalBool(env, bc.E)
 			if err != nil {
